@@ -61,7 +61,7 @@ static void write_srec_line(
     address &= 0xffffff;
     fprintf(out, "S%c%02X%06X", '0' + type, len + 4, address);
 
-    checksum = (len + 4) + (address >> 16) + ((address >> 24) & 0xff) +
+    checksum = (len + 4) + (address >> 16) + ((address >> 8) & 0xff) +
       (address & 0xff);
   }
     else
